@@ -134,6 +134,24 @@ flow main
 """,
         [["ev", 0, None], ["ev", 1, None], ["ev", 2, None], ["age"], ["finished", 0], ["started", 0]],
     ),
+    # a state round trip while a flow waits inside an open fork (or-group / when), then the group completes
+    "fork-roundtrip": (
+        """flow f1
+  match Ev1()
+
+flow main
+  match Ev0() or Ev1()
+  send OutA()
+  when f1
+    send OutB()
+  or when Ev2()
+    send OutC()
+  match Ev0() and Ev2()
+  send OutD()
+  match Never()
+""",
+        [["ev", 0, None], ["ev", 1, None], ["ev", 2, None], ["save"]],
+    ),
     # the same `match $r.Finished()` statement is reached with references of different action types
     "ref-type-varies": (
         """flow w $p
